@@ -41,9 +41,9 @@ type thConfig struct {
 	FPS        int
 }
 
-func (c thConfig) B() int64       { return int64(c.BucketSecs) * int64(c.FPS) }
-func (c thConfig) minLen() int64  { return int64(c.MinSecs * c.FPS) }
-func (c thConfig) rate() float64  { return float64(c.minLen()) / c.Refill.Seconds() }
+func (c thConfig) B() int64      { return int64(c.BucketSecs) * int64(c.FPS) }
+func (c thConfig) minLen() int64 { return int64(c.MinSecs * c.FPS) }
+func (c thConfig) rate() float64 { return float64(c.minLen()) / c.Refill.Seconds() }
 func (c thConfig) String() string {
 	return fmt.Sprintf("bucket=%ds refill=%v min+preview=%ds fps=%d (B=%d frames, minLen=%d, rate=%.4g/s)", c.BucketSecs, c.Refill, c.MinSecs, c.FPS, c.B(), c.minLen(), c.rate())
 }
